@@ -272,10 +272,15 @@ where
 /// undefined behaviour: double free, wild store...).
 pub fn side_note<C: Serialize>(case: &C) {
     static PATH: std::sync::OnceLock<Option<String>> = std::sync::OnceLock::new();
+    static NEXT: std::sync::atomic::AtomicUsize = std::sync::atomic::AtomicUsize::new(0);
+    thread_local! {
+        static WORKER: usize = NEXT.fetch_add(1, std::sync::atomic::Ordering::Relaxed);
+    }
     let path = PATH.get_or_init(|| std::env::var("VERIF_SIDEFILE").ok().filter(|s| !s.is_empty()));
     if let Some(path) = path {
         if let Ok(bytes) = serde_json::to_vec(case) {
-            let _ = std::fs::write(path, bytes);
+            let w = WORKER.with(|w| *w);
+            let _ = std::fs::write(format!("{}.{}", path, w), bytes);
         }
     }
 }
